@@ -25,3 +25,16 @@ Print Assumptions C06_frac.
 
 Example C06_witness : mpf_nint (Mpf 1 5 (-1) 3) 0 RD = Ok (Mpf 1 1 1 1).     (* nint(-2.5) = -2 (tie to even) *)
 Proof. reflexivity. Qed.
+
+(* ---- modulo: correctly rounded x - y*floor(x/y), with the sign of the divisor ---- *)
+From MP Require Import Proofs.ModRound.
+Theorem C06_mod : forall s t prec r, fincanon s -> regular t -> 0 < prec ->
+  exists y, mpf_mod s t prec r = Ok y /\ rv y = RND r prec (rmod (rv s) (rv t)).
+Proof. exact mpf_mod_round. Qed.
+Print Assumptions C06_mod.
+Theorem C06_mod_range_pos : forall x y, (0 < y)%R -> (0 <= rmod x y < y)%R.
+Proof. exact rmod_range_pos. Qed.
+Theorem C06_mod_range_neg : forall x y, (y < 0)%R -> (y < rmod x y <= 0)%R.
+Proof. exact rmod_range_neg. Qed.
+Example C06_mod_witness : mpf_mod (Mpf 1 7 0 3) (Mpf 0 3 0 2) 53 RN = Ok (Mpf 0 1 1 1).   (* -7 mod 3 = 2 *)
+Proof. vm_compute. reflexivity. Qed.
